@@ -13,10 +13,13 @@ CONSTANTS Part, NParts
 Names == {"a", "b"}
 Listable == {"a", "b", "ghost"}
 Nodes == {"n1", "n2"}
-Clocks == {"2001-02-03T04:05:06Z", "2031-12-30T23:59:58Z"}
-Configs == [includeDate : BOOLEAN, clock : Clocks, schema : {"default", "alt"}]
+\* two ordinary instants and the two ends of the representable range (the zero time is a legal configured time)
+Clocks == {"2001-02-03T04:05:06Z", "2031-12-30T23:59:58Z", "0001-01-01T00:00:00Z", "9999-12-31T23:59:59Z"}
+\* schema IRIs: both default, both alternative, or only one of the two changed
+Configs == [includeDate : BOOLEAN, clock : Clocks, schema : {"default", "alt", "altLex", "altRep"}]
+ProfileNames == {"C03 profile", "API \"strict\" rules: 100% 'quoted' \\ back"}
 
-Profiles == [name : {"C03 profile"}, listed : [LevelSet -> SUBSET Listable], defined : SUBSET Names,
+Profiles == [name : ProfileNames, listed : [LevelSet -> SUBSET Listable], defined : SUBSET Names,
              fails : [Names -> SUBSET Nodes]]
 
 \* slicing
@@ -24,7 +27,9 @@ Card(S) == Cardinality(S)
 Hash(p, c) == (Card(p.listed["violation"]) + 3 * Card(p.listed["warning"]) + 7 * Card(p.listed["info"])
                + 11 * Card(p.defined) + 13 * Card(p.fails["a"]) + 17 * Card(p.fails["b"])
                + (IF "a" \in p.listed["violation"] THEN 19 ELSE 0) + (IF "b" \in p.listed["info"] THEN 23 ELSE 0)
-               + (IF c.includeDate THEN 29 ELSE 0) + (IF c.schema = "alt" THEN 31 ELSE 0)
+               + (IF c.includeDate THEN 29 ELSE 0) + (IF c.schema = "alt" THEN 31 ELSE 0) + Len(c.schema) * 43
+               + (IF p.name = "C03 profile" THEN 0 ELSE 47) + (IF c.clock = "0001-01-01T00:00:00Z" THEN 53 ELSE 0)
+               + (IF c.clock = "9999-12-31T23:59:59Z" THEN 59 ELSE 0)
                + (IF "n1" \in p.fails["a"] THEN 37 ELSE 0) + (IF "n2" \in p.fails["b"] THEN 41 ELSE 0)) % NParts
 
 \* undefined validations cannot fail anywhere: normalise so that equal scenarios are one state
